@@ -511,7 +511,8 @@ class Ctx:
         with open(os.path.join(EVID, self.prop + '.json'), 'w') as f:
             json.dump(ev, f, indent=1)
         log('%s %s tier=%s states=%d transitions=%d traces=%d wall=%.1fs' % (
-            'FAIL' if self.violations else 'PASS', self.prop, self.tier, cov.get('states', 0),
+            'FAIL' if self.violations else ('ERROR' if cov.get('tool_error') else 'PASS'), self.prop, self.tier,
+            cov.get('states', 0),
             cov.get('transitions', 0), cov.get('traces_validated_against_impl', 0), wall))
         return 1 if self.violations else 0
 
